@@ -792,9 +792,28 @@ func (e *OrdEngine) storeCell(ck cellKey, va AV, f *Fact) {
 	}
 	if va.interesting() {
 		f.Cells[ck] = va
+	} else if _, fresh := f.Cells[cellKey{ck.base, "#fresh"}]; fresh {
+		f.Cells[ck] = AV{Ev: "#w"} // written with something unknown: no longer the zero value
 	} else {
 		delete(f.Cells, ck)
 	}
+}
+
+// zeroFlag: a bool read from memory that was created on this path and never written since is false.
+func (e *OrdEngine) zeroFlag(ck cellKey, t types.Type, f *Fact) (AV, bool) {
+	if bt, ok := t.Underlying().(*types.Basic); !ok || bt.Kind() != types.Bool {
+		return AV{}, false
+	}
+	if _, fresh := f.Cells[cellKey{ck.base, "#fresh"}]; !fresh {
+		return AV{}, false
+	}
+	// nothing stored at this path or at a path that contains it
+	for k := range f.Cells {
+		if k.base == ck.base && k.path != "#fresh" && (strings.HasPrefix(ck.path, k.path) || strings.HasPrefix(k.path, ck.path)) {
+			return AV{}, false
+		}
+	}
+	return AV{K: avFalse}, true
 }
 
 // loadCell reads a cell; a load of a whole struct collects what is known about its fields.
@@ -1365,6 +1384,18 @@ func (e *OrdEngine) step(ins ssa.Instruction, fr *Frame, f *Fact) []*Fact {
 	switch x := ins.(type) {
 	case *ssa.Phi:
 		return []*Fact{f} // handled in flow
+	case *ssa.Alloc:
+		// a variable / object created on this path: its memory is zero until something is stored
+		for k := range f.Cells {
+			if k.base == ssa.Value(x) {
+				delete(f.Cells, k) // re-executed in a loop: a new object
+			}
+		}
+		f.Cells[cellKey{x, "#fresh"}] = AV{K: avTrue}
+		if e.Spec.Instr != nil {
+			e.Spec.Instr(cx, ins, f)
+		}
+		return []*Fact{f}
 	case *ssa.Store:
 		pa := e.eval(x.Addr, fr, f)
 		if pa.K == avCell {
@@ -1385,6 +1416,8 @@ func (e *OrdEngine) step(ins ssa.Instruction, fr *Frame, f *Fact) []*Fact {
 			if pa.K == avCell {
 				if a, ok := e.loadCell(cellKey{pa.Cell, pa.Path}, f); ok {
 					e.setVal(x, a, f)
+				} else if z, ok := e.zeroFlag(cellKey{pa.Cell, pa.Path}, x.Type(), f); ok {
+					e.setVal(x, z, f)
 				}
 			} else if pa.Tag != "" && strings.HasPrefix(pa.Tag, "~") {
 				e.setVal(x, AV{Tag: pa.Tag}, f)
